@@ -35,6 +35,8 @@ static inline int64_t vm_int_mod(int64_t a, int64_t b) {
 /* Verification hook H1: remaining instruction budget; negative = unlimited.
  * Set directly by in-process probes, or from NANOLANG_VERIF_FUEL in vm_init(). */
 long long nanolang_verif_fuel = -1;
+/* work done by the value printer since the last instruction boundary (set in value.c) */
+extern long long nanolang_verif_print_items;
 #endif
 
 static VmResult vm_error(VmState *vm, VmResult err, const char *fmt, ...) {
@@ -375,6 +377,12 @@ VmTrap vm_core_execute(VmState *vm) {
                 return trap_error(vm, VM_ERR_NOT_IMPLEMENTED, "verif: instruction budget exhausted");
             }
             nanolang_verif_fuel--;
+            /* the budget is a work budget: an instruction that printed a large value pays for it */
+            if (nanolang_verif_print_items > 0) {
+                long long cost = nanolang_verif_print_items / 16;
+                nanolang_verif_print_items = 0;
+                nanolang_verif_fuel = cost >= nanolang_verif_fuel ? 0 : nanolang_verif_fuel - cost;
+            }
         }
 #endif
         DecodedInstruction instr;
